@@ -4,7 +4,7 @@ LEVEL = "model_checking"
 TECHNIQUE = ("CBMC bounded symbolic execution of the real event.c/watch.c/evmap.c entry points on a constructed, locked "
              "event_base; lock monitor (counting lock, owner, recursion flag) installed as the evthread callbacks; "
              "solver-chosen allocation faults through event.c's mm hooks and refusing back-end/signal/pipe stubs")
-UNITS = ["event.c", "watch.c", "evmap.c", "evthread-internal.h"]
+UNITS = ["event.c", "watch.c", "evmap.c", "evthread-internal.h", "buffer.c", "listener.c"]
 FUNCTIONS = ["event_add", "event_del", "event_del_block", "event_del_noblock", "event_active", "event_assign", "event_base_set",
              "event_new", "event_free", "event_base_once", "event_priority_set", "event_remove_timer", "event_base_loopbreak",
              "event_base_loopcontinue", "event_base_loopexit", "event_base_loop", "event_base_gettimeofday_cached",
@@ -15,14 +15,28 @@ FUNCTIONS = ["event_add", "event_del", "event_del_block", "event_del_noblock", "
              "event_base_active_by_fd", "event_base_active_by_signal", "event_base_add_virtual_", "event_base_del_virtual_",
              "evthread_make_base_notifiable", "event_callback_activate_", "event_callback_cancel_", "event_callback_finalize_",
              "event_callback_finalize_many_", "event_deferred_cb_schedule_", "event_deferred_cb_cancel_", "event_active_later_",
-             "event_base_free", "event_base_free_nofinalize", "event_base_assert_ok_"]
-BOUNDS = ("one API call per obligation on a base with 2 priorities holding a pending timer, a persistent read event and the target "
+             "event_base_free", "event_base_free_nofinalize", "event_base_assert_ok_",
+             "evbuffer_add", "evbuffer_prepend", "evbuffer_expand", "evbuffer_drain", "evbuffer_remove", "evbuffer_copyout", "evbuffer_copyout_from",
+             "evbuffer_pullup", "evbuffer_reserve_space", "evbuffer_commit_space", "evbuffer_add_reference", "evbuffer_add_buffer",
+             "evbuffer_prepend_buffer", "evbuffer_remove_buffer", "evbuffer_add_buffer_reference", "evbuffer_search", "evbuffer_search_range",
+             "evbuffer_peek", "evbuffer_ptr_set", "evbuffer_freeze", "evbuffer_unfreeze", "evbuffer_get_length", "evbuffer_get_contiguous_space",
+             "evbuffer_set_max_read", "evbuffer_set_flags", "evbuffer_add_cb", "evbuffer_remove_cb", "evbuffer_remove_cb_entry", "evbuffer_cb_set_flags",
+             "evbuffer_free", "evbuffer_new", "evbuffer_enable_locking", "evbuffer_defer_callbacks", "evbuffer_add_iovec",
+             "evconnlistener_new", "evconnlistener_free", "evconnlistener_enable", "evconnlistener_disable", "evconnlistener_get_fd",
+             "evconnlistener_get_base", "evconnlistener_set_cb", "evconnlistener_set_error_cb", "listener_read_cb"]
+BOUNDS = ("event.c/watch.c: one API call per obligation on a base with 2 priorities holding a pending timer, a persistent read event and the target "
           "event (kind io/timer/signal, state assigned/added/active); call made with no loop running, from inside the target's "
           "callback, or by another thread id while the loop waits in the back end; fds/signals/priority counts from small sets, "
-          "all other arguments and every fault decision symbolic; followed by one loop pass")
-OUT = ("buffer.c/bufferevent*.c/listener.c/evdns.c/http.c entry points (lock balance there is asserted by the harnesses of those "
-       "units' own properties through VP_ASSERT_NO_LOCKS); event_reinit; histories of more than one call before the checked call; "
-       "real back ends (the back end is a recording stub that may refuse)")
+          "data arguments symbolic, fault vector / timeout / variant solver-chosen per unmerged scenario. buffer.c: one call on a locked two-chain "
+          "evbuffer (25 bytes) + a second locked evbuffer, sizes {0,3,16,30}, k-th allocation of the call fails for k in {none,1,2,3}. "
+          "listener.c: one THREADSAFE listener; creation with failing allocations; accept pass with 0-2 connections, EAGAIN or hard error "
+          "(with/without error callback), accept callback disabling/freeing/re-enabling the listener")
+OUT = ("bufferevent*.c, evdns.c, http.c entry points (lock balance there is asserted by the harnesses of those units' own properties through "
+       "VP_ASSERT_NO_LOCKS, not by a dedicated family); evbuffer_search_eol/evbuffer_readln (no verdict within 400 s), evbuffer_add_file/"
+       "evbuffer_read/evbuffer_write (descriptors; C15/C16), evbuffer_add_printf (no vsnprintf model); evconnlistener_new_bind (sockets); "
+       "event_reinit; event_base_get_running_event outside a callback (documented undefined); histories of more than one call before the "
+       "checked call; real back ends (the back end is a recording stub that may refuse); deadlocks that need a real interleaving (e.g. "
+       "evconnlistener_disable holding the listener lock while event_del waits for an accept callback that is about to take it)")
 TEXT = ("Every listed entry point returns with vp_lock_depth_total == 0 on every path (success, allocation failure, back-end refusal), "
         "never unlocks an unheld lock, never re-enters a non-recursive lock, never waits on a condition without the lock; "
         "user callbacks are entered with no internal lock held.")
@@ -113,6 +127,7 @@ def _obb(op, **kw):
     if _T: d["timeout"] = _T
     return d
 BSMALL = ("PULLUP", "ADD_BUFFER_REFERENCE")
+BSKIP = ("SEARCH_EOL", "READLN")   # no verdict within 400 s even on concrete text (evbuffer_strspn / eol scanning unrolls): left out, see OUT
 
 LOPS = ["NEW_FREE", "ENABLE_DISABLE", "GETTERS", "SET_CB", "ACCEPT"]
 LACTS = ["NONE", "DISABLE", "FREE", "CLEAR_CB", "ENABLE"]
@@ -165,6 +180,11 @@ def obligations(tier):
             for w in ((1, 3) if tier == "quick" else range(7)): add(op, what=w)
         else:
             add(op)
+    # buffer.c and listener.c entry points (lock balance only; their functional properties are C12..C16 / C44)
+    for op in BOPS:
+        if op not in BSKIP: obs.append(_obb(op))
+    for op in LOPS: obs.append(_obl(op))
+    for act in LACTS[1:]: obs.append(_obl("ACCEPT", act))
     if tier == "quick":
         # other kinds / states / calling contexts for the calls that do the real work
         for op in ("ADD", "DEL"):
